@@ -813,13 +813,17 @@ func ruleR6(c *Ctx, id string) {
 				if br.Cond.Op != token.ILLEGAL {
 					continue
 				}
+				var cands []ssa.Value
 				if phi, ok := br.Cond.X.(*ssa.Phi); ok {
-					for _, e := range phi.Edges {
-						if carries(e) {
-							// true side stays in the loop (reaches the Shrink call again)
-							if len(br.True.Instrs) > 0 && (reachableFrom(br.True.Instrs[0], at) || br.True == at.Block()) {
-								okLoop = true
-							}
+					cands = phi.Edges
+				} else {
+					cands = []ssa.Value{br.Cond.X} // the result tested directly ("if !more { return }")
+				}
+				for _, e := range cands {
+					if carries(e) {
+						// true side stays in the loop (reaches the Shrink call again)
+						if len(br.True.Instrs) > 0 && (reachableFrom(br.True.Instrs[0], at) || br.True == at.Block()) {
+							okLoop = true
 						}
 					}
 				}
